@@ -7,6 +7,8 @@ import (
 	"encoding/json"
 	"errors"
 	"time"
+
+	"go.uber.org/zap"
 )
 
 // VerifIDForURI returns the internal id of an identifier (false when it never got one).
@@ -134,3 +136,22 @@ func (ds *Dataset) VerifInjectDuplicate(e *Entity) (uint64, error) {
 	}
 	return uint64(txnTime), txn.Commit()
 }
+
+// VerifNewBackupManager builds a BackupManager without registering a cron job (what
+// NewBackupManager does besides that: fields + LoadLastID).
+func VerifNewBackupManager(store *Store, location string, useRsync bool, logger *zap.SugaredLogger) (*BackupManager, error) {
+	b := &BackupManager{}
+	b.backupLocation = location
+	b.backupSourceLocation = store.storeLocation
+	b.useRsync = useRsync
+	b.store = store
+	b.logger = logger
+	lastID, err := b.LoadLastID()
+	if err != nil {
+		return nil, err
+	}
+	b.lastID = lastID
+	return b, nil
+}
+
+func (b *BackupManager) VerifLastID() uint64 { return b.lastID }
